@@ -260,6 +260,8 @@ type registry struct {
 	// option values handed to more than one server (an application builds its option list once and creates
 	// several servers from it): middleware index -> the option value created for the first server
 	sharedMw map[int]wire.OptionFn
+	// invocations of the CloseConn handler on the servers built with this registry
+	closeConnRuns int
 }
 
 // the user-supplied global parameter map is never modified by serving connections
@@ -645,6 +647,15 @@ func buildServer(c *cfgT, reg *registry, extra ...wire.OptionFn) (*wire.Server, 
 			return nil
 		}))
 	}
+	// the close handler is always registered. The library accepts it; whenever it decides to call it, a connection
+	// that never became a session (CancelRequest, refused or bare SSLRequest, unreadable startup packet — nothing
+	// but the one-byte SSL reply was ever sent to it) has no callbacks at all
+	opts = append(opts, wire.CloseConn(func(ctx context.Context) error {
+		reg.mu.Lock()
+		reg.closeConnRuns++
+		reg.mu.Unlock()
+		return nil
+	}))
 	switch {
 	case !c.tls && c.tlsEmpty == 1:
 		opts = append(opts, wire.TLSConfig(&tls.Config{}))
@@ -771,6 +782,17 @@ func collect(conn *memConn, rec *recorder, o *obsT) {
 		}
 	}
 	retiredMu.Unlock()
+	if rec.reg != nil && len(rec.reg.recs) == 1 {
+		rec.reg.mu.Lock()
+		runs := rec.reg.closeConnRuns
+		rec.reg.mu.Unlock()
+		conn.mu.Lock()
+		sent := len(conn.out)
+		conn.mu.Unlock()
+		if runs > 0 && sent <= 1 && !conn.encrypted {
+			rec.bad("the close handler ran %d time(s) for a connection that never became a session (%d byte(s) were sent to it)", runs, sent)
+		}
+	}
 	if rec.armed != "" {
 		rec.bad("a %s deadline set on the connection was still armed while callbacks of the session ran: the session depends on the clock", rec.armed)
 	}
